@@ -214,6 +214,7 @@ done:
 			}
 		}
 	}
+	cs.SrvEOFWithData = t.Bool()
 	sc.Conns = []ConnScript{cs}
 	cp.LogoutErr = t.Chance(1, 4)
 	sc.BE.Conns = []ConnBackendPlan{cp}
@@ -289,6 +290,12 @@ func checkC07(sc *Scenario, h *History) []Violation {
 			}
 			if !complete && ev.SawEOF {
 				out = append(out, Violation{Rule: "C07.incomplete-eof", Detail: fmt.Sprintf("the message was not received in full (%d of %d client octets delivered) but the reader reported EOF", sent, tx.End), Witness: w})
+				continue
+			}
+			if complete && (x.Cut < 0 || x.CutKind == cutFIN || x.CutKind == cutHalf) && !x.SrvClose && ev.Done && !tx.Partial && !(ev.SawEOF && bytes.Equal(ev.Read, tx.Msg)) && sc.Srv.TLS != tlsImplicit {
+				// the other direction: a message that did arrive in full, with the peer's FIN
+				// right behind it, is delivered in full
+				out = append(out, Violation{Rule: "C07.complete-lost", Detail: fmt.Sprintf("the message was received in full (the connection ended %d octets behind its end) but the backend read %d of %d octets and its reader ended with %q", sent-tx.End, len(ev.Read), len(tx.Msg), ev.Terminal), Witness: w})
 				continue
 			}
 			if !ev.Done {
